@@ -6,11 +6,14 @@
    proofs in Proofs/ConcProof.v.  The harness (harness-conc) ties the section table to the source
    and searches for failing executions of the real code.
 
-   FULL statements that are NOT theorems today, with their refutations below:
+   FULL statements that are NOT theorems, with their refutations below:
      C03_lockset       : every annotated access is protected by a lock all conflicting accesses hold
-     C03_no_deadlock   : forall progs sched, cc_stuckb (run_sched progs sched) = false
-     C03_no_unlock_error / C03_panic_keeps_locks_balanced : for all sections
-     C03_quiescent_wf  : forall well-typed progs sched, quiescent -> consistent *)
+                         (refuted today: error paths of mem.File read fileData.name unlocked)
+     C03_quiescent_wf  : forall well-typed progs sched, quiescent -> consistent
+                         (today: reduced to the sequential bodies, _partial; refuted before ce143d9)
+   C03_no_deadlock / C03_no_unlock_error / C03_panic_keeps_locks_balanced hold for TODAY's table;
+   they were refuted (witnesses kept below, `cf_legacy`) for RemoveAll as it was before commit
+   ce143d9 "RemoveAll removes the subtree in one critical section". *)
 From Coq Require Import String.
 From AF Require Import Lib.Bytes Lib.Path Lib.Ops Gen.Consts Model.MemFile Model.MemFs Model.Conc
   Proofs.ConcProof.
@@ -78,73 +81,85 @@ Print Assumptions C03_lockset_refuted_dirflag_illtyped.
    about to run section a, it holds exactly cc_ctx a (mu mode, a file mutex or not, pending defers) *)
 Theorem C03_sections_hold_declared_locks :
   forall s progs sched t th a,
-    cc_noleakb (cc_run_from s progs sched) = true ->
     nth_error (cf_threads (cc_run_from s progs sched)) t = Some th ->
     cc_next_of th = NxInstr (CcAct a) ->
     cc_ctx a = (th_mu th, cc_hasf th, th_defers th).
-Proof. exact conc_sections_hold_declared_locks. Qed.
+Proof. intros s progs sched t th a. apply conc_sections_hold_declared_locks, conc_no_leak. Qed.
 Print Assumptions C03_sections_hold_declared_locks.
 
 (* ================================================================== deadlock *)
-(* For all initial states, programs (any number of threads, any calls, any arguments) and schedules:
-   as long as no panic has leaked a lock, the configuration is never stuck. *)
-Theorem C03_no_deadlock_partial :
-  forall s progs sched,
-    cc_noleakb (cc_run_from s progs sched) = true -> cc_stuckb (cc_run_from s progs sched) = false.
-Proof. exact conc_no_deadlock. Qed.
-Print Assumptions C03_no_deadlock_partial.
-
-(* ... and a lock can only leak through RemoveAll: programs without RemoveAll never get stuck,
-   unconditionally *)
-Theorem C03_no_deadlock_without_removeall :
-  forall s progs sched, cc_progs_nora progs = true -> cc_stuckb (cc_run_from s progs sched) = false.
-Proof. intros s progs sched H. apply conc_no_deadlock. now apply conc_no_removeall_no_leak. Qed.
-Print Assumptions C03_no_deadlock_without_removeall.
+(* TODAY'S TABLE.  For all initial states, programs (any number of threads, any calls, any
+   arguments) and schedules the configuration is never stuck: some unfinished thread can move. *)
+Theorem C03_no_deadlock :
+  forall s progs sched, cc_stuckb (cc_run_from s progs sched) = false.
+Proof. intros s progs sched. apply conc_no_deadlock, conc_no_leak. Qed.
+Print Assumptions C03_no_deadlock.
 
 (* the lock order behind it: a thread that waits for mu holds nothing; a thread that waits for a
-   file mutex holds no file mutex *)
+   file mutex holds no file mutex (it may hold mu) *)
 Theorem C03_lock_order :
   forall s progs sched t th l r,
-    cc_noleakb (cc_run_from s progs sched) = true ->
     nth_error (cf_threads (cc_run_from s progs sched)) t = Some th ->
     cc_next_of th = NxInstr (CcAcq l r) ->
     th_f th = None /\ (l <> LkF -> th_mu th = HNone).
-Proof. exact conc_lock_order. Qed.
+Proof. intros s progs sched t th l r. apply conc_lock_order, conc_no_leak. Qed.
 Print Assumptions C03_lock_order.
+
+(* THE TABLE BEFORE COMMIT ce143d9 (RemoveAll: unregister under mu without defer, then one critical
+   section per deleted key): never stuck as long as no panic has leaked a lock, and a lock leaks
+   only through RemoveAll. *)
+Theorem C03_no_deadlock_legacy_partial :
+  forall s progs sched,
+    cc_noleakb (run_sched_from (cc_init_gen true s progs) sched) = true ->
+    cc_stuckb (run_sched_from (cc_init_gen true s progs) sched) = false.
+Proof.
+  intros s progs sched H. apply cc_noleakb_iff in H. destruct (cc_inv_init_gen true s progs) as [Hi Hb].
+  apply cc_inv_not_stuck. exact (proj1 (cc_inv_run _ sched Hi Hb H)).
+Qed.
+Print Assumptions C03_no_deadlock_legacy_partial.
+
+Theorem C03_no_deadlock_legacy_without_removeall :
+  forall s progs sched, cc_progs_nora progs = true ->
+    cc_stuckb (run_sched_from (cc_init_gen true s progs) sched) = false.
+Proof.
+  intros s progs sched H. apply C03_no_deadlock_legacy_partial. now apply conc_legacy_no_removeall_no_leak.
+Qed.
+Print Assumptions C03_no_deadlock_legacy_without_removeall.
 
 Local Open Scope string_scope.
 Definition nm := cc_bytes.
 
-(* REFUTED for RemoveAll, by WELL-TYPED programs: RemoveAll("/d1") deletes the key "/d1" and releases
+(* REFUTED before ce143d9, by WELL-TYPED programs: RemoveAll("/d1") deletes the key "/d1" and releases
    mu; RemoveAll("/d1/f1") of another goroutine then runs `m.mu.Lock(); m.unRegisterWithParent(path)`
    — the parent is gone, log.Panic, and mu stays write-locked (no defer).  The goroutine's next call
-   and every other call wait for ever. *)
+   and every other call wait for ever.  (Observed by the stress harness on that tree:
+   deadlock:...MemMapFs.Create+... after panic:RemoveAll.) *)
 Definition w_deadlock_progs : list (list op) :=
   [[Create (nm "/d1/f1"); RemoveAll (nm "/d1")]; [RemoveAll (nm "/d1/f1"); Stat (nm "/")]].
 Definition w_deadlock_sched : list nat := (repeat 0%nat 25 ++ repeat 1%nat 8)%list.
 
-Theorem C03_no_deadlock_refuted_removeall_panic :
-  exists progs sched, cc_wt progs = true /\ cc_stuckb (run_sched progs sched) = true.
+Theorem C03_no_deadlock_refuted_before_ce143d9 :
+  exists progs sched, cc_wt progs = true /\ cc_stuckb (run_sched_legacy progs sched) = true.
 Proof. exists w_deadlock_progs, w_deadlock_sched. vm_compute. auto. Qed.
-Print Assumptions C03_no_deadlock_refuted_removeall_panic.
+Print Assumptions C03_no_deadlock_refuted_before_ce143d9.
+
+(* the same programs and schedule on today's table: RemoveAll is one critical section *)
+Example C03_ex_deadlock_witness_today :
+  cc_stuckb (cc_drain 200 (run_sched w_deadlock_progs w_deadlock_sched)) = false /\
+  cf_panics (cc_drain 200 (run_sched w_deadlock_progs w_deadlock_sched)) = 0%nat.
+Proof. vm_compute. auto. Qed.
 
 (* ================================================================== unlock errors *)
-Theorem C03_no_unlock_error_partial :
-  forall s progs sched,
-    cc_noleakb (cc_run_from s progs sched) = true -> cf_bad (cc_run_from s progs sched) = None.
-Proof. exact conc_no_unlock_error. Qed.
-Print Assumptions C03_no_unlock_error_partial.
-
-Theorem C03_no_unlock_error_without_removeall :
-  forall s progs sched, cc_progs_nora progs = true -> cf_bad (cc_run_from s progs sched) = None.
-Proof. intros s progs sched H. apply conc_no_unlock_error. now apply conc_no_removeall_no_leak. Qed.
-Print Assumptions C03_no_unlock_error_without_removeall.
+Theorem C03_no_unlock_error :
+  forall s progs sched, cf_bad (cc_run_from s progs sched) = None.
+Proof. intros s progs sched. apply conc_no_unlock_error, conc_no_leak. Qed.
+Print Assumptions C03_no_unlock_error.
 
 (* ================================================================== panics *)
 (* the section table is well bracketed: whatever a section finds, the code it continues with never
    releases a lock that is not held, takes mu only with nothing held and reaches every later
    section under that section's declared locks; when it panics, the deferred unlocks registered so
-   far release everything — except in the one leaky section *)
+   far release everything — except in the one leaky (legacy) section *)
 Theorem C03_section_table_well_bracketed :
   forall a f s,
     match cc_sem a f s with
@@ -154,51 +169,59 @@ Theorem C03_section_table_well_bracketed :
 Proof. exact cc_sem_ok. Qed.
 Print Assumptions C03_section_table_well_bracketed.
 
-Theorem C03_panic_keeps_locks_balanced_partial :
+(* every section of today's table (all but the legacy ARaUnreg) that panics leaves nothing locked *)
+Theorem C03_panic_keeps_locks_balanced :
   forall a f s s', cc_sem a f s = CcPanic s' -> a <> ARaUnreg -> cc_okd_ctx a = true.
 Proof. exact conc_panic_balanced. Qed.
-Print Assumptions C03_panic_keeps_locks_balanced_partial.
+Print Assumptions C03_panic_keeps_locks_balanced.
 
-(* the panics ARE reachable by well-typed programs.  Remove: `defer m.mu.Unlock()` releases mu *)
+(* ... and no execution of today's table ever leaks a lock *)
+Theorem C03_no_lock_leak :
+  forall s progs sched, cc_noleakb (cc_run_from s progs sched) = true.
+Proof. exact conc_no_leak. Qed.
+Print Assumptions C03_no_lock_leak.
+
+(* before ce143d9 the panics WERE reachable by well-typed programs.  Remove: `defer m.mu.Unlock()`
+   releases mu ... *)
 Definition w_panic_progs : list (list op) :=
   [[Create (nm "/d1/f1"); RemoveAll (nm "/d1")]; [Remove (nm "/d1/f1")]].
 Definition w_panic_sched : list nat := (repeat 0%nat 25 ++ repeat 1%nat 9)%list.
 
-Theorem C03_panic_reachable_well_typed :
+Theorem C03_panic_reachable_before_ce143d9 :
   exists progs sched, cc_wt progs = true /\
-    nth_error (cc_results (run_sched progs sched)) 1 = Some [RPanic] /\
-    cf_mu (run_sched progs sched) = CcFree /\ cc_noleakb (run_sched progs sched) = true.
+    nth_error (cc_results (run_sched_legacy progs sched)) 1 = Some [RPanic] /\
+    cf_mu (run_sched_legacy progs sched) = CcFree /\ cc_noleakb (run_sched_legacy progs sched) = true.
 Proof. exists w_panic_progs, w_panic_sched. vm_compute. auto. Qed.
-Print Assumptions C03_panic_reachable_well_typed.
+Print Assumptions C03_panic_reachable_before_ce143d9.
 
-(* REFUTED for RemoveAll's first section: the panic leaves mu write-locked by a goroutine whose call
-   has returned *)
-Theorem C03_panic_leak_refuted_removeall :
+(* ... RemoveAll's first section: the panic left mu write-locked by a goroutine whose call had returned *)
+Theorem C03_panic_leak_refuted_before_ce143d9 :
   exists progs sched, cc_wt progs = true /\
-    cf_mu (run_sched progs sched) = CcW 1 /\
-    nth_error (cc_results (run_sched progs sched)) 1 = Some [RPanic] /\
-    cc_noleakb (run_sched progs sched) = false.
+    cf_mu (run_sched_legacy progs sched) = CcW 1 /\
+    nth_error (cc_results (run_sched_legacy progs sched)) 1 = Some [RPanic] /\
+    cc_noleakb (run_sched_legacy progs sched) = false.
 Proof. exists w_deadlock_progs, (repeat 0%nat 25 ++ repeat 1%nat 7)%list. vm_compute. auto. Qed.
-Print Assumptions C03_panic_leak_refuted_removeall.
+Print Assumptions C03_panic_leak_refuted_before_ce143d9.
 
 (* ================================================================== quiescent consistency *)
 (* [cc_consistentb] = the three clauses of the property over the path map and the child indexes:
    every existing path has an existing parent directory that lists it under its own name, and
    every listed entry exists (and is that node, in that directory).
 
-   Transfer to the sequential model, for every method except RemoveAll (each has at most ONE section
-   that changes the tree: Create, OpenFile's Create, Mkdir's locked section, Remove, Rename): every
-   predicate of the tree part of the state that the sequential bodies preserve — on the calls the
-   programs contain — holds in EVERY configuration of EVERY schedule.  With P := cc_consistentb
-   this reduces quiescent consistency of concurrent programs to the sequential model (validated
-   against the code by C01/C02's correspondence runs); that sequential preservation is a
-   hypothesis here, not a theorem: hence _partial. *)
-Theorem C03_quiescent_wf_fragment_partial :
+   Transfer to the sequential model: in today's table every method has at most ONE section that
+   changes the tree (Create, OpenFile's openOrCreate, Mkdir's locked section, Remove, RemoveAll,
+   Rename).  Hence every predicate of the tree part of the state that the sequential bodies
+   preserve — on the calls the programs contain — holds in EVERY configuration of EVERY schedule.
+   With P := consistency this reduces the quiescent-consistency clause for concurrent programs to
+   the sequential model (validated against the code by C01/C02's correspondence runs); that
+   sequential preservation is a hypothesis here, not a theorem: hence _partial. *)
+Theorem C03_quiescent_wf_partial :
   forall (P : mst -> Prop) (A : op -> Prop),
     (forall s s', cc_tree_of s = cc_tree_of s' -> P s -> P s') ->
-    (forall p, ~ A (RemoveAll p)) ->
     (forall s p, A (Create p) -> P s -> P (fst (m_create s (normalize_path p)))) ->
-    (forall s p fl pm, A (OpenFile p fl pm) -> P s -> P (fst (m_create s (normalize_path p)))) ->
+    (forall s p fl pm s' x, A (OpenFile p fl pm) ->
+        cc_open_or_create s (normalize_path p) fl (Z.land pm chmod_bits) = Some (s', x) -> P s -> P s') ->
+    (forall s p, A (RemoveAll p) -> P s -> P (fst (m_removeall s (normalize_path p)))) ->
     (forall s p pm, A (Mkdir p pm) \/ A (MkdirAll p pm) -> lookup s (normalize_path p) = None ->
                     P s -> P (cc_mkdir_body s (normalize_path p) (Z.land pm chmod_bits))) ->
     (forall s p, A (Remove p) -> P s -> P (fst (m_remove s (normalize_path p)))) ->
@@ -207,26 +230,27 @@ Theorem C03_quiescent_wf_fragment_partial :
       (forall sp o, In sp progs -> In o (snd sp) -> A o) -> P s0 ->
       P (cf_st (cc_run_from s0 progs sched)).
 Proof. exact conc_transfer. Qed.
-Print Assumptions C03_quiescent_wf_fragment_partial.
+Print Assumptions C03_quiescent_wf_partial.
 
-(* REFUTED for RemoveAll, by well-typed programs without any panic: RemoveAll("/d1") unregisters
-   /d1, snapshots the keys below it and deletes them one by one, releasing mu in between; a
-   Create("/d1/f2") that runs in between finds /d1 still in the map, registers with it — and is
-   left behind without a parent when RemoveAll has finished. *)
+(* REFUTED before ce143d9, by well-typed programs without any panic: RemoveAll("/d1") unregistered
+   /d1, snapshotted the keys below it and deleted them one by one, releasing mu in between; a
+   Create("/d1/f2") that ran in between found /d1 still in the map, registered with it — and was
+   left behind without a parent when RemoveAll had finished.  (Observed by the stress harness on
+   that tree: inconsistent:orphan / ghost / unlisted, always with RemoveAll involved.) *)
 Definition w_orphan_progs : list (list op) :=
   [[Create (nm "/d1/f1"); RemoveAll (nm "/d1")]; [Create (nm "/d1/f2")]].
 Definition w_orphan_sched : list nat :=
   (repeat 0%nat 19 ++ repeat 1%nat 7 ++ repeat 0%nat 13 ++ [1%nat])%list.
 
-Theorem C03_quiescent_refuted_removeall_orphan :
+Theorem C03_quiescent_refuted_before_ce143d9 :
   exists progs sched, cc_wt progs = true /\
-    cc_quiescentb (run_sched progs sched) = true /\ cf_panics (run_sched progs sched) = 0%nat /\
-    cf_bad (run_sched progs sched) = None /\
-    cc_consistentb (cf_st (run_sched progs sched)) = false /\
-    lookup (cf_st (run_sched progs sched)) (nm "/d1/f2") <> None /\
-    lookup (cf_st (run_sched progs sched)) (nm "/d1") = None.
+    cc_quiescentb (run_sched_legacy progs sched) = true /\ cf_panics (run_sched_legacy progs sched) = 0%nat /\
+    cf_bad (run_sched_legacy progs sched) = None /\
+    cc_consistentb (cf_st (run_sched_legacy progs sched)) = false /\
+    lookup (cf_st (run_sched_legacy progs sched)) (nm "/d1/f2") <> None /\
+    lookup (cf_st (run_sched_legacy progs sched)) (nm "/d1") = None.
 Proof. exists w_orphan_progs, w_orphan_sched. vm_compute. repeat split; auto; discriminate. Qed.
-Print Assumptions C03_quiescent_refuted_removeall_orphan.
+Print Assumptions C03_quiescent_refuted_before_ce143d9.
 
 (* ================================================================== examples *)
 (* the model computes; one thread alone behaves like the sequential model *)
@@ -238,8 +262,8 @@ Example C03_ex_single_thread :
 Proof. vm_compute. reflexivity. Qed.
 
 (* exhaustive exploration of ALL schedules (up to commuting thread-local steps and releases, see
-   cc_explore) of a small well-typed program set without RemoveAll: no run panics, deadlocks,
-   leaks a lock or ends inconsistent *)
+   cc_explore) of a small well-typed program set: no run panics, deadlocks, leaks a lock or ends
+   inconsistent *)
 Example C03_ex_explore_fragment :
   let s := cc_explore 400 (cc_init [[Create (nm "/d1/f1"); Rename (nm "/d1/f1") (nm "/d2/f1")];
                                     [Mkdir (nm "/d1") 493%Z; Remove (nm "/d1/f1")];
@@ -248,12 +272,14 @@ Example C03_ex_explore_fragment :
   = (false, false, false, false, false, false).
 Proof. vm_compute. reflexivity. Qed.
 
-(* ... and with RemoveAll all three bad outcomes are reachable *)
+(* ... the same exploration with RemoveAll: nothing bad today, all of it before ce143d9 *)
 Example C03_ex_explore_removeall :
   let s := cc_explore 400 (run_sched w_deadlock_progs (repeat 0%nat 9)) su0 in
-  (su_panic s, su_stuck s, su_leak s, su_cut s) = (true, true, true, false).
-Proof. vm_compute. reflexivity. Qed.
+  let s' := cc_explore 400 (run_sched_legacy w_deadlock_progs (repeat 0%nat 9)) su0 in
+  (su_panic s, su_stuck s, su_leak s, su_inconsistent s, su_cut s) = (false, false, false, false, false) /\
+  (su_panic s', su_stuck s', su_leak s', su_cut s') = (true, true, true, false).
+Proof. vm_compute. auto. Qed.
 
-(* the hypotheses of the conditional theorems are satisfiable: a run without leak *)
-Example C03_ex_noleak : cc_noleakb (run_sched w_panic_progs w_panic_sched) = true.
+(* the hypothesis of the conditional legacy theorem is satisfiable: a run without leak *)
+Example C03_ex_noleak : cc_noleakb (run_sched_legacy w_panic_progs w_panic_sched) = true.
 Proof. vm_compute. reflexivity. Qed.
